@@ -19,32 +19,45 @@ Theorem census_equals_audit :
   constcast_residue = map (fun a => fst (fst a)) constcast_audit /\
   static_residue = map (fun a => fst (fst a)) static_audit /\
   census_localstatic = map (fun a => fst (fst a)) localstatic_audit /\
-  census_owner = map facility_home all_facilities.
+  census_owner = map facility_home all_facilities /\
+  census_constlookup = map (fun a => fst (fst a)) constlookup_audit.
 Proof. exact census_equals_audit_l. Qed.
 Print Assumptions census_equals_audit.
 
-(* every census entry carries a non-SharedWrite verdict - except the known finding(s) *)
-Theorem shared_writes_allowlisted_partial :
+(* FULL statement (after the repairs 4d62aaf / 24f879b): every census entry carries a verdict other than
+   SharedWrite; known_shared_writes is empty *)
+Theorem shared_writes_allowlisted :
   (forall e, In e census_mutable -> mutable_justified e) /\
   (forall e, In e census_constcast -> constcast_justified e) /\
   (forall e, In e census_static -> static_justified e) /\
-  (forall e, In e census_localstatic -> exists v j, In (e, v, j) localstatic_audit /\ v <> SharedWrite).
+  (forall e, In e census_localstatic -> exists v j, In (e, v, j) localstatic_audit /\ v <> SharedWrite) /\
+  (forall e, In e census_constlookup -> exists v j, In (e, v, j) constlookup_audit /\ v <> SharedWrite) /\
+  known_shared_writes = [].
 Proof.
-  repeat split; [exact mutable_allowlisted | exact constcast_allowlisted | exact static_allowlisted | exact localstatic_allowlisted].
+  repeat split; [exact mutable_allowlisted | exact constcast_allowlisted | exact static_allowlisted
+                | exact localstatic_allowlisted | exact constlookup_allowlisted].
 Qed.
-Print Assumptions shared_writes_allowlisted_partial.
+Print Assumptions shared_writes_allowlisted.
 
-(* the guard of the partial theorem is exact: the only audited SharedWrite is XalanList::getListHead const *)
-Theorem shared_write_findings_exact : forall k v j, In (k, v, j) constcast_audit -> v = SharedWrite ->
-  cast_fn k = "XalanList::getListHead const".
-Proof. exact constcast_shared_write_unique. Qed.
-Print Assumptions shared_write_findings_exact.
+(* no audited const_cast site is a shared write any more *)
+Theorem constcast_sites_no_shared_write : forall k v j, In (k, v, j) constcast_audit -> v <> SharedWrite.
+Proof. exact constcast_no_shared_write. Qed.
+Print Assumptions constcast_sites_no_shared_write.
 
-(* the full statement "no census entry is a shared write" is refuted by the audit (finding KT2) *)
-Theorem shared_writes_allowlisted_refuted :
-  exists e j, In e census_constcast /\ In (e, SharedWrite, j) constcast_audit.
-Proof. exact no_shared_write_refuted_l. Qed.
-Print Assumptions shared_writes_allowlisted_refuted.
+(* the lazy head allocation behind XalanList::getListHead() const (verdict LazyGuarded): every const lookup
+   on a XalanMap/XalanSet/XalanList data member found by the census is per-thread, compile/initialisation
+   time only, a configuration API, or read-only because guarded by empty() / primed before sharing *)
+Theorem lazy_head_call_sites_covered : forall e v j, In (e, v, j) constlookup_audit ->
+  v = PerThread \/ v = ConstructionOnly \/ v = InitOnly \/ v = ConfigAPI \/ v = ReadOnly.
+Proof. exact lazy_head_sites_covered. Qed.
+Print Assumptions lazy_head_call_sites_covered.
+
+(* the two repaired callers carry their empty() guard in the current source (translator fact) *)
+Theorem repaired_callers_are_guarded :
+  In ("XalanSourceTreeDocument", "m_elementsByID", "Map", "XalanSourceTreeDocument::getElementById const", "end,find", "guarded", "FunctionID::execute;XercesDocumentWrapper::getElementById;getDoc") census_constlookup /\
+  In ("XalanSourceTreeDocument", "m_unparsedEntityURIs", "Map", "XalanSourceTreeDocument::getUnparsedEntityURI const", "end,find", "guarded", "many(5)") census_constlookup.
+Proof. exact lazy_guard_facts. Qed.
+Print Assumptions repaired_callers_are_guarded.
 
 (* the state of every lazily built facility lives in a class audited as per-thread, and the census
    found the member exactly there *)
@@ -129,9 +142,9 @@ Theorem pool_locked_complete : forall reqs p s, In s reqs -> In s (run_locked re
 Proof. exact pool_locked_complete_l. Qed.
 Print Assumptions pool_locked_complete.
 
-(* unsynchronised pool (threadSafe=false: what XercesParserLiaison's default, hence
-   XalanTransformer::parseSource(.., useXercesDOM=true), creates): two threads' get() of the same
-   string can interleave find/insert so that the pool invariant breaks (finding KT1) *)
+(* unsynchronised pool (threadSafe=false: XercesParserLiaison's default; XercesDOMParsedSource now asks for
+   the thread-safe wrapper, fix 4d62aaf): two threads' get() of the same string can interleave find/insert
+   so that the pool invariant breaks - why a wrapper built with threadSafe=false must not be shared *)
 Theorem pool_unlocked_nodup_refuted :
   exists sched, wf_thread 0 (acts_of 0 sched) = true /\ wf_thread 1 (acts_of 1 sched) = true /\
                 ~ NoDup (run_unlocked sched []).
